@@ -71,6 +71,11 @@ func runNative(pkgDirs []string, pkgDir string, runs []replayRun, timeout time.D
 				}
 			}
 		}
+		for name, data := range extraOverlay[pd] {
+			gp := filepath.Join(tmp, strings.ReplaceAll(pd, "/", "_")+"_"+name)
+			os.WriteFile(gp, data, 0o644)
+			overlay[filepath.Join(repoRoot, pd, "zz_verif_"+name)] = gp
+		}
 		rt, err := os.ReadFile(filepath.Join(harnessRoot, "_rt", "rt_native.go.txt"))
 		if err != nil {
 			return nil, "", err
